@@ -467,11 +467,11 @@ func (s *Session) pickWait(o *uint32) {
 	if s.wait(); atomic.LoadUint32(o) != 0 {
 		return
 	}
-	if n := s.keyNextSync(); n != nil {
-		s.send <- n
-	} else {
-		s.send <- &com.Packet{Device: s.ID}
-	}
+	// KeyCrypt: Do not start a key swap inside a Channel. The server reads the
+	//           whole Channel with the keys it had when the Channel started
+	//           and both directions are in flight at the same time, wait for
+	//           the next non-Channel exchange instead.
+	s.send <- &com.Packet{Device: s.ID}
 }
 func (s *Session) queue(n *com.Packet) {
 	if s.state.SendClosed() {
